@@ -17,6 +17,7 @@ import ast
 from .. import analysis
 from ..astutil import calls_in, call_name, where
 from ..logic import entails, reach_avoiding
+from ..symtext import _non_none
 from ..model import AnalysisError, ClassInfo, unparse, walk_no_nested
 from .rules_tree import (tree_events, path_facts, TreeState, norm_text, is_child_list_expr, CHILD_FIELDS, infeasible)
 
@@ -170,7 +171,7 @@ def smartlist_detach_guard_ok(an, f):
         for r in n.expr_roots():
             for c in calls_in(r):
                 if isinstance(c.func, ast.Attribute) and c.func.attr == "remove" and c.args and norm_text(ax.expand(c.args[0], n)) == val \
-                        and norm_text(ax.expand(c.func.value, n)) == "%s._parent" % val:
+                        and norm_text(_non_none(ax.expand(c.func.value, n))) == "%s._parent" % val:
                     dets.append(n)
                 if isinstance(c.func, ast.Attribute) and c.func.attr == "__setitem__" and isinstance(c.func.value, ast.Call) \
                         and call_name(c.func.value) == "super":
@@ -180,7 +181,7 @@ def smartlist_detach_guard_ok(an, f):
     det_ids = set(n.id for n in dets)
 
     def classify(leaf, br):
-        t = norm_text(ax.expand(leaf, br))
+        t = norm_text(leaf)          # the whole test was expanded before it was decomposed
         if t == "hasattr(%s, '_parent')" % val:
             return "H"
         if t == "%s._parent" % val:
@@ -195,7 +196,7 @@ def smartlist_detach_guard_ok(an, f):
         if dst.id in det_ids:
             return True
         return src.kind == "branch" and kind in ("true", "false") and \
-            entails(src.ast.test, kind == "true", lambda lf, src=src: classify(lf, src),
+            entails(ax.expand(src.ast.test, src), kind == "true", lambda lf, src=src: classify(lf, src),
                     lambda a0: not (a0["H"] and a0["P"] and not a0["PN"] and a0["I"]), ["H", "P", "PN", "I"])
     ok = all(not reach_avoiding(g, g.entry, a0, edge_ok, skip_kinds=("exc",)) for a0 in adds)
     return ok, "hasattr(value, '_parent') and value._parent and value in value._parent"
@@ -237,7 +238,7 @@ def run(prog, rep):
                 continue
             n_sites += 1
             writers_seen.add(f.short)
-            rep.check(f.short in table, "OWN-1", "%s %s" % (f.short, what), table.get(f.short, ""),
+            rep.check(prog.table_short(f) in table, "OWN-1", "%s %s" % (f.short, what), table.get(prog.table_short(f), ""),
                       "%s %s at `%s` but is not one of the owner functions: the tree invariant is no longer maintained "
                       "by a closed set of writers" % (f.short, what, unparse(node.ast).split("\n")[0][:60]), where(f, node.ast),
                       witness="after this operation a child is listed without / with a wrong parent pointer")
